@@ -35,7 +35,11 @@ from ..oracles.nearest_image import NearestImage
 
 RULE = ("cells in LAMMPS triangular form (lengths 0.5-50, tilts up to 1.5 lengths, crystal families; one case in four "
         "strongly tilted: lengths 1-30, tilts up to 4 lengths), half of them with the third vector reversed (left-handed), "
-        "optionally rigidly rotated and with a non-zero origin; all 8 pbc settings (wrap) / fully periodic (normalize); "
+        "optionally rigidly rotated and with a non-zero origin; 3 cells in 8 are EXACT SYMMETRY IMAGES of the LAMMPS form (zeros survive): "
+        "2 in 8 turned by exactly 180 degrees about x / y / z or mirrored, with a, b, c reversed individually / in pairs / all (lower "
+        "triangular with any sign pattern on the diagonal, e.g. right-handed with two negative diagonal entries), 1 in 8 under any of "
+        "the 48 signed axis permutations (exact 90 / 120 / 180 degree rotations, mirrors) with the cell vectors renamed and reversed; "
+        "all 8 pbc settings (wrap) / fully periodic (normalize); "
         "1-12 atoms at relative coordinates mixing generic values in [-6,7], values in [0,1], exact integers and "
         "half-integers (faces) and a few values up to +-1e5 cells away; 0-3 extra per-atom properties.  wrap_exact: "
         "power-of-two lengths, dyadic tilts/origin/coordinates, decided exactly.  Non-trivial: at least one atom "
@@ -43,7 +47,7 @@ RULE = ("cells in LAMMPS triangular form (lengths 0.5-50, tilts up to 1.5 length
         "left-handed or rotated).  Every case also carries a HISTORY applied to the object before the judged call (none in "
         "about a quarter of the cases; else 1-4 operations: periodicity changed through the setter in five input forms, "
         "element-wise in place (system.pbc[i] = ...), by slice, through the aliased bool ndarray handed in or through a "
-        "system sharing the array; scaled read; earlier wrap; box_set(vects= | avect=.., scale=True/False); position edits "
+        "system sharing the array; scaled read; earlier wrap; box_set(vects= | avect=.., scale=True/False; half of them also reversing cell vectors); position edits "
         "in place / by setter / through atoms_prop(scale=True); rebuild from the same parts, safecopy, deepcopy, "
         "atoms_ix[:], data-model round trip; reads of dvect/dmag/atoms_df/str/box parameters/normalize; a wrap of another "
         "system in the process) and INPUT FORMS (positions as float array, nested list, Fortran-ordered, strided view, "
@@ -77,7 +81,8 @@ ASSUMPTIONS = ["numpy linear algebra (solve, inv, det) is correct",
                "nothing is asserted about its size, only that the old cell and every atom are inside the new one"]
 LEVEL_TEXT = ("Random exploration of System.wrap over right/left-handed, rotated and strongly tilted cells with every "
               "periodicity setting and atoms up to 1e5 cells outside or exactly on faces (faces decided exactly on dyadic "
-              "inputs), and of System.normalize / lammps.normalize over fully periodic systems with cond <= 1e3; each after a random "
+              "inputs), cells that are exact symmetry images of the LAMMPS form (exact 180 / 90 degree turns, mirrors, reversed and renamed "
+              "vectors: lower triangular with negative diagonal entries; LAMMPS compatibility of the result judged on its vectors), and of System.normalize / lammps.normalize over fully periodic systems with cond <= 1e3; each after a random "
               "history on the same object / in the same process (periodicity changed by setter, element-wise in place or through "
               "an aliased array; cell and position edits; rebuilds, copies, reloads; reads; earlier wraps) and over the documented "
               "input forms (lists, tuples, integer-typed in every integer-like dtype incl. unsigned and bool, non-contiguous, read-only cell, scale=True); "
@@ -164,6 +169,97 @@ def scale_labels(L, labels):
             labels.add('scale_large')
     else:
         labels.add('scale_1')
+
+
+# ----------------------------------------------------------------------------- exact symmetry images of the LAMMPS form
+#
+# A generic rotation fills the whole matrix with non-zero numbers.  The cells that matter for "is the result LAMMPS compatible"
+# are the ones that ALMOST are: the LAMMPS triangular form acted on by an operation that maps coordinate axes onto coordinate
+# axes exactly, so that exact zeros survive.  cell['sym'] = {'m': i, 'p': j, 's': k} applies, after everything gens.cell_vects
+# does (third vector reversed, generic rotation, length scale), exactly (products with 0 / +-1 only):
+#   m  one of the 48 signed permutation matrices M acting on the Cartesian axes, vects -> vects . M^T: the 24 proper ones are
+#      the rotations by exactly 90 / 180 degrees about x, y, z and the 120 degree axis permutations, the other 24 mirrors /
+#      the inversion; numbers 0..7 are the diagonal ones (0 the identity; 180 degrees about x, y, z and the mirrors): they
+#      keep the zeros above the diagonal
+#   p  one of the 6 permutations of the cell vectors (rows): swaps and cyclic renamings of a, b, c
+#   s  one of the 8 sign patterns of the rows: a, b, c reversed individually, in pairs, all three
+# With m < 8 and p = 0 the result is lower triangular with any sign pattern on its diagonal: avect on the x axis and bvect in the
+# xy plane, but pointing the "wrong" way - right-handed cells with two negative diagonal entries among them.  Whether the
+# normalised cell is LAMMPS compatible is judged on its VECTORS (zeros above the diagonal, lx, ly, lz > 0, right-handed), never
+# through Box.is_lammps_norm().  The unchanged code was run over all 48 x 6 x 8 images of triclinic and orthorhombic cells
+# before anything was asserted: all pass.
+
+SIGNS8 = [(a, b, c) for a in (1.0, -1.0) for b in (1.0, -1.0) for c in (1.0, -1.0)]
+PERMS6 = [(0, 1, 2), (1, 0, 2), (0, 2, 1), (2, 1, 0), (1, 2, 0), (2, 0, 1)]
+_PERM_ODD = [False, True, True, True, False, False]
+
+
+def _signed_perms():
+    out = []
+    for p in PERMS6:                      # identity permutation first: numbers 0..7 are diagonal
+        for sg in SIGNS8:
+            M = np.zeros((3, 3))
+            for i in range(3):
+                M[i, p[i]] = sg[i]
+            out.append(M)
+    return out
+
+
+SIGNED_PERMS = _signed_perms()
+
+
+def cell_vects5(c):
+    """gens.cell_vects followed by the exact symmetry operation c['sym'] (see above)"""
+    V = gens.cell_vects(c)
+    sym = c.get('sym')
+    if sym:
+        V = V @ SIGNED_PERMS[int(sym['m']) % 48].T
+        V = V[list(PERMS6[int(sym['p']) % 6])]
+        V = V * np.array(SIGNS8[int(sym['s']) % 8])[:, None]
+        V = V + 0.0                       # no negative zeros
+    return V
+
+
+def cell_lefthanded(c):
+    """handedness of the generated cell from the parities of its parts (not from a determinant)"""
+    lh = bool(c.get('lefthanded'))
+    sym = c.get('sym')
+    if sym:
+        m, p, k = int(sym['m']) % 48, int(sym['p']) % 6, int(sym['s']) % 8
+        for sg in (SIGNS8[m % 8], SIGNS8[k]):
+            if sg[0] * sg[1] * sg[2] < 0:
+                lh = not lh
+        if _PERM_ODD[m // 8]:
+            lh = not lh
+        if _PERM_ODD[p]:
+            lh = not lh
+    return lh
+
+
+def cell_labels5(c):
+    labs = gens.cell_labels(c)
+    labs.discard('lefthanded')
+    if cell_lefthanded(c):
+        labs.add('lefthanded')
+    sym = c.get('sym')
+    if sym:
+        m, p, k = int(sym['m']) % 48, int(sym['p']) % 6, int(sym['s']) % 8
+        if m or p or k:
+            labs.add('sym')
+            labs.add('sym_diag' if (m < 8 and p == 0) else 'sym_perm')
+            if c.get('rot'):
+                labs.add('sym_rot')
+    return labs
+
+
+def shape_labels(V, labels):
+    """what the cell handed to the judged call looks like (V: right-handed, i.e. third vector already reversed if need be)"""
+    if V[0, 1] == 0.0 and V[0, 2] == 0.0 and V[1, 2] == 0.0:
+        labels.add('lowertri')
+        if V[0, 0] < 0 or V[1, 1] < 0 or V[2, 2] < 0:
+            labels.add('lowertri_negdiag')    # avect on the x axis, bvect in the xy plane, but not LAMMPS compatible
+        else:
+            labels.add('lammps_form_input')
 
 
 # key of the finding (fixed in /repo by 2a7c2bf; kept so that a recurrence - for any integer-like dtype - is reported as an
@@ -284,7 +380,7 @@ def build_system(am, case, pbc, exact=False):
     """-> system, V, o, s, x, props, ctx.   ctx: the model of the history (see apply_history)"""
     c = case['cell']
     forms = dict(_DEFAULT_FORMS, **(case.get('forms') or {}))
-    V, o = gens.cell_vects(c), gens.cell_origin(c)
+    V, o = cell_vects5(c), gens.cell_origin(c)
     L = case_scale(case)
     s = np.array(case['rel'], dtype=float)
     x = s @ V + o
@@ -329,6 +425,7 @@ def build_system(am, case, pbc, exact=False):
            'cached': [bool(p) for p in pbc],    # the setting at the last constructor / setter call on this object
            'handed': handed,                    # bool ndarray handed to atomman that it may alias
            'changed': False,                    # cell or positions changed since construction
+           'lh_flip': False,                    # the history reversed an odd number of cell vectors
            'int_stored': np.asarray(system.atoms.view['pos']).dtype.kind in 'iub',
            'pos_dtype': str(np.asarray(system.atoms.view['pos']).dtype),
            'forms': forms, 'scaled': scaled, 'L': L}
@@ -406,6 +503,15 @@ def _op_box_set(system, op, ctx, labels):
     V = np.array(system.box.vects, dtype=float)
     o = np.array(system.box.origin, dtype=float)
     newV = V * np.array(op['f'], dtype=float)[:, None]          # rows rescaled: handedness kept
+    sg = op.get('sg')
+    if sg is not None:
+        # cell vectors reversed (individually, in pairs, all three) through the public setter: an odd number changes the
+        # handedness; a LAMMPS-form cell becomes lower triangular with negative diagonal entries
+        newV = newV * np.array(sg, dtype=float)[:, None] + 0.0
+        if sg[0] * sg[1] * sg[2] < 0:
+            ctx['lh_flip'] = not ctx['lh_flip']
+        if min(sg) < 0:
+            labels.add('hist_box_reversed')
     newo = o + np.array(op['d'], dtype=float) @ V
     if op['via'] == 'vects':
         system.box_set(vects=newV, origin=newo, scale=bool(op['scale']))
@@ -620,7 +726,38 @@ def check_props(system, atype0, props, what, exact_keys=None):
 
 _cells_std = gens.cells(lefthanded=True)
 _cells_strong = gens.cells(lefthanded=True, lmin=1.0, lmax=30.0, maxtilt=4.0, families=False, zero_tilt_share=False)
-_cells = st.one_of(_cells_std, _cells_std, _cells_std, _cells_strong)
+_cells_plain = st.one_of(_cells_std, _cells_std, _cells_std, _cells_strong)
+_int48 = st.integers(0, 47)
+
+
+def _draw_sym(draw, c):
+    """the cell dict c, in 3 cases of 8 with an exact symmetry operation (see cell_vects5): 2 of 8 'diagonal' (rotation by
+    exactly 180 degrees about x / y / z or a mirror, cell vectors reversed individually / in pairs / all; no generic rotation: the
+    zeros above the diagonal survive), 1 of 8 any signed axis permutation (exact 90 / 120 / 180 degree rotations, mirrors), cell
+    vectors renamed and reversed (three quarters of them without a generic rotation)"""
+    j = draw(_int8)
+    if j < 5:
+        return c
+    c = dict(c)
+    if j < 7:
+        m, p, k = draw(_int8), 0, draw(_int8)
+        if m == 0 and k == 0:
+            k = 6                         # avect and bvect reversed: the cell turned by 180 degrees about z
+        c['rot'] = None
+    else:
+        m, p, k = draw(_int48), draw(_int6), draw(_int8)
+        if draw(_int4):
+            c['rot'] = None
+    c['sym'] = {'m': m, 'p': p, 's': k}
+    return c
+
+
+@st.composite
+def _cells_sym(draw):
+    return _draw_sym(draw, draw(_cells_plain))
+
+
+_cells = _cells_sym()
 
 _exact_vals = st.sampled_from([0.0, 1.0, 0.5, -1.0, 2.0, -0.5, 1.5, -6.0, 7.0, 3.0, -3.0, 0.0, 1.0])
 _far_vals = st.builds(lambda k, f: float(k) + f, st.one_of(st.integers(-1000, 1000), st.integers(-100000, 100000)), st.sampled_from([0.0, 0.5, 0.3, 0.9999, 0.0001, 0.77]))
@@ -651,8 +788,19 @@ _scaled_read_op = st.just({'op': 'scaled_read'})
 _wrap_op = st.builds(lambda r: {'op': 'wrap', 'ret': r}, _bool)
 _f3 = st.lists(st.sampled_from([1.0, 1.0, 0.5, 2.0, 1.25, 0.75, 1.5]), min_size=3, max_size=3)
 _d3 = st.lists(st.sampled_from([0.0, 0.0, 0.5, -0.25, 1.0, -2.0, 0.3125, 3.0]), min_size=3, max_size=3)
-_box_op = st.builds(lambda via, f, d, sc: {'op': 'box_set', 'via': via, 'f': f, 'd': d, 'scale': sc},
-                    st.sampled_from(['vects', 'avect']), _f3, _d3, _bool)
+# cell vectors reversed by the box_set of a history: none (no 'sg' key, the cases of earlier rounds) in half of the operations
+_sg3 = st.sampled_from([None, None, None, None, None, None, None, [-1.0, -1.0, 1.0], [1.0, -1.0, -1.0], [-1.0, 1.0, -1.0],
+                        [-1.0, 1.0, 1.0], [1.0, -1.0, 1.0], [1.0, 1.0, -1.0], [-1.0, -1.0, -1.0]])
+
+
+def _mk_box_op(via, f, d, sc, sg):
+    op = {'op': 'box_set', 'via': via, 'f': f, 'd': d, 'scale': sc}
+    if sg is not None:
+        op['sg'] = sg
+    return op
+
+
+_box_op = st.builds(_mk_box_op, st.sampled_from(['vects', 'avect']), _f3, _d3, _bool, _sg3)
 _pos_op = st.builds(lambda via, i, d: {'op': 'pos', 'via': via, 'i': i, 'd': d},
                     st.sampled_from(['inplace', 'setter', 'scaled', 'scaled_index']), st.integers(0, 11), _d3)
 _rebuild_op = st.builds(lambda via: {'op': 'rebuild', 'via': via}, st.sampled_from(['shared', 'deepcopy', 'ix', 'model', 'safecopy']))
@@ -761,6 +909,7 @@ def wrap_exact_cases(draw):
     xy, xz, yz = draw(_dy_tilt) * lx, draw(_dy_tilt) * lx, draw(_dy_tilt) * ly
     c = {'lx': lx, 'ly': ly, 'lz': lz, 'xy': xy, 'xz': xz, 'yz': yz,
          'origin': [draw(_dy_origin) for _ in range(3)], 'rot': None, 'lefthanded': draw(_bool)}
+    c = _draw_sym(draw, c)                # exact: products with 0 / +-1 only
     pbc0, hist = draw(_pbcs), draw(_hist_exact)
     forms = draw(_forms)
     c = _with_scale(c, draw(_scale_k2), 2.0, forms)          # power of two: every number stays exactly representable
@@ -806,7 +955,7 @@ def oracle_wrap(case, exact=False, ctx_out=None):
                        given=str(ctx['forms'].get('int_dtype', 'list of Python ints')))
     n = len(s)
     at0 = atypes(n)
-    labels = gens.cell_labels(c)
+    labels = cell_labels5(c)
     scale_labels(ctx['L'], labels)
     form_labels(ctx, labels)
     if not ctx['changed']:
@@ -838,6 +987,13 @@ def oracle_wrap(case, exact=False, ctx_out=None):
     if cond > 1e3:
         labels.add('illcond')
     Vb = np.array(system.box.vects, dtype=float)      # as stored (floor applied)
+    labels.discard('lefthanded')
+    if np.linalg.det(Vb) < 0:
+        labels.add('lefthanded')
+    Vrh = Vb.copy()
+    if np.linalg.det(Vb) < 0:
+        Vrh[2] = -Vrh[2]
+    shape_labels(Vrh, labels)
     require(np.abs(Vb - V).max() <= 1e-8 * vmax, lambda: 'the cell changed during a history that only reads / changes the periodicity: %r -> %r' % (V, Vb))
     x0 = np.array(system.atoms.pos, dtype=float)
     require(np.array_equal(x0, x), 'the positions changed during a history that only reads / changes the periodicity')
@@ -964,8 +1120,8 @@ def oracle_normalize(case, ctx_out=None):
     hist = case_history(case)
     if final_pbc(pbc0, hist) != pbc:
         raise HarnessError('normalize case whose history does not end fully periodic')
-    labels = gens.cell_labels(c)
-    if float(np.linalg.cond(gens.cell_vects(c))) > 1e3:
+    labels = cell_labels5(c)
+    if float(np.linalg.cond(cell_vects5(c))) > 1e3:
         return labels | {'illcond_skipped'}
     system, V, o, s, x, props, ctx = build_system(am, case, pbc0)
     if ctx_out is not None:
@@ -1046,10 +1202,14 @@ def oracle_normalize(case, ctx_out=None):
     # --- same lengths, angles, volume (of the cell with its third vector reversed if it was left-handed)
     Vref = Vb.copy()
     lh = np.linalg.det(Vb) < 0
-    if bool(lh) != bool(c.get('lefthanded')):
+    if bool(lh) != (cell_lefthanded(c) != bool(ctx['lh_flip'])):
         raise HarnessError('handedness of the generated cell')
+    labels.discard('lefthanded')
+    if lh:
+        labels.add('lefthanded')
     if lh:
         Vref[2] = -Vref[2]
+    shape_labels(Vref, labels)
     p0, p1 = my_params(Vref), my_params(V1)
     reltol = _TS * (1e-8 + 40 * EPS * cond ** 2)
     for i, nm in enumerate(('a', 'b', 'c')):
@@ -1106,7 +1266,7 @@ def oracle_normalize(case, ctx_out=None):
         labels.add('props')
     if bool(np.any((s == 0.0) | (s == 1.0))):
         labels.add('onface')
-    if out_before and (labels & {'tilted', 'lefthanded', 'rotated'}):
+    if out_before and (labels & {'tilted', 'lefthanded', 'rotated', 'sym', 'lowertri_negdiag'}):
         labels.add('nt')
     return labels
 
@@ -1120,11 +1280,13 @@ CLAUSES = [
                       'pbc_setter': 0.08, 'forms': 0.35, 'pbc_form': 0.28, 'box_form': 0.2, 'pos_scaled_ctor': 0.06,
                       'pos_list': 0.05, 'hist_rebuild': 0.05, 'hist_read': 0.06, 'hist_box_set': 0.025, 'hist_pos_edit': 0.03,
                       'prior_wrap': 0.03, 'prior_scaled_read': 0.07,
+                      'sym': 0.16, 'sym_diag': 0.11, 'sym_perm': 0.05, 'lowertri_negdiag': 0.09, 'hist_box_reversed': 0.018,
                       'pos_int': 0.08, 'pos_int_not64': 0.05, 'pos_int_narrow': 0.025, 'pos_int_unsigned': 0.02, 'pos_int_bool': 0.008},
            desc='wrap: moves = imageflags.vects on periodic axes only, periodic vectors unchanged, cell only grows, all atoms inside, properties untouched; after any history, every input form, every length unit'),
     Clause('wrap_exact', oracle_wrap_exact, wrap_exact_cases, quick=2400, thorough=50000,
            min_share={'scaled': 0.22, 'scale_1': 0.23, 'scale_si': 0.08, 'scale_small': 0.12, 'scale_large': 0.09,
                       'exact': 0.5, 'nt': 0.35, 'onface': 0.4, 'far': 0.3, 'pbc3': 0.1, 'mixed_pbc': 0.3,
+                      'sym': 0.15, 'sym_diag': 0.09, 'sym_perm': 0.06, 'lowertri_negdiag': 0.07,
                       'hist': 0.25, 'pbc_changed': 0.15, 'pbc_inplace': 0.08, 'inplace_toggled_out': 0.07, 'forms': 0.35,
                       'pos_int': 0.08, 'pos_int_not64': 0.05, 'pos_int_narrow': 0.025, 'pos_int_unsigned': 0.02, 'pos_int_bool': 0.008, 'pos_float32': 0.02},
            desc='wrap on exactly representable inputs (atoms exactly on faces, far outside): zero tolerance, zero band on periodic axes; after exactness-preserving histories'),
@@ -1134,6 +1296,8 @@ CLAUSES = [
                       'via_function': 0.12, 'far': 0.04, 'props': 0.3,
                       'hist': 0.35, 'pbc_changed': 0.3, 'pbc_inplace': 0.2, 'inplace_toggled_out': 0.15, 'forms': 0.35,
                       'hist_box_set': 0.03, 'hist_pos_edit': 0.03, 'hist_rebuild': 0.05,
+                      'sym': 0.16, 'sym_diag': 0.11, 'sym_perm': 0.05, 'lowertri_negdiag': 0.09, 'lammps_form_input': 0.2,
+                      'hist_box_reversed': 0.02,
                       'pos_int': 0.08, 'pos_int_not64': 0.05, 'pos_int_narrow': 0.025, 'pos_int_unsigned': 0.02, 'pos_int_bool': 0.008},
            max_share={'illcond_skipped': 0.05},
            desc='normalize: input untouched, new right-handed LAMMPS cell with same lengths/angles/volume, proper rotation maps old vectors to new, atoms inside, nearest-image distances unchanged; after any history ending fully periodic, every input form, every length unit'),
